@@ -80,6 +80,7 @@ def step' (d : DSt) (ws : List String) : DSt × List String :=
         match parseAns a with
         | some a => apply d (.observe a)
         | none => (d, ["bad-op"])
+      | "mobs@", ["X"] => (d, ["noopen"])
       | "mobs@", [rl, now, a] =>
         match parseRl rl, now.toInt?, parseAns a with
         | some rl, some now, some a => apply d (.maybeObserve rl now a)
